@@ -154,8 +154,15 @@ func makeTxs(h *History, r *rand.Rand) ([]*wire.MsgTx, map[chainhash.Hash]int) {
 			r.Read(hh[:])
 			tx.AddTxIn(&wire.TxIn{PreviousOutPoint: wire.OutPoint{Hash: hh, Index: uint32(i)}})
 		}
-		for _, p := range ps {
-			tx.AddTxIn(&wire.TxIn{PreviousOutPoint: wire.OutPoint{Hash: txs[p].TxHash(), Index: uint32(i)}})
+		for k, p := range ps {
+			// a parent listed more than once: several of its outputs
+			idx := uint32(i)
+			for _, q := range ps[:k] {
+				if q == p {
+					idx++
+				}
+			}
+			tx.AddTxIn(&wire.TxIn{PreviousOutPoint: wire.OutPoint{Hash: txs[p].TxHash(), Index: idx}})
 		}
 		// most transactions carry witness data (txid != wtxid), a few do not
 		if r.Intn(4) > 0 {
@@ -573,7 +580,17 @@ func pickOut(r *rand.Rand, worker bool) string {
 
 func genParents(r *rand.Rand, n int) [][]int {
 	p := make([][]int, n)
-	switch r.Intn(5) {
+	switch r.Intn(6) {
+	case 5: // chain in which a child spends two or three outputs of its parent
+		for i := 1; i < n; i++ {
+			p[i] = []int{i}
+			for k := r.Intn(3); k > 0; k-- {
+				p[i] = append(p[i], i)
+			}
+			if i >= 2 && r.Intn(3) == 0 {
+				p[i] = append(p[i], i-1) // and one of its grandparent
+			}
+		}
 	case 0: // chain
 		for i := 1; i < n; i++ {
 			p[i] = []int{i}
